@@ -112,6 +112,10 @@ def check_function(ck, label, f, P, is_program=False):
     except R.Unsupported as e:
         ck.not_encoded[label] = str(e)[:120]
         return "not-encoded"
+    except Exception as e:   # noqa: BLE001 -- interpreter gap: counted, never a verdict
+        ck.not_encoded[label] = f"interpreter error {type(e).__name__}: {e}"[:120]
+        ck.inconclusive.append(f"equiv {label}: interpreter error")
+        return "not-encoded"
     ck.functions |= octx[0].funcs
     rerr = R.zor(*[g for g, k, w in rctx.errors])
     if rv is None:
